@@ -177,7 +177,8 @@ class Run(object):
                 return REJECT
             return RET(f.pop(op[2]))
         if n == "popd":
-            return RET(f.pop(op[2], "D"))
+            # the default may be the very object stored in the field (pop('error', None) on a field holding None)
+            return RET(f.pop(op[2], f.get(op[2], "D") if op[3:] == ["@same"] else (op[3] if op[3:] else "D")))
         if n == "popitem":
             if not f:
                 return REJECT
@@ -288,7 +289,7 @@ class Run(object):
         if n == "pop":
             return sh.pop(op[2])
         if n == "popd":
-            return sh.pop(op[2], "D")
+            return sh.pop(op[2], sh.get(op[2], "D") if op[3:] == ["@same"] else (op[3] if op[3:] else "D"))
         if n == "popitem":
             return sh.popitem()
         if n == "setdefault":
@@ -448,6 +449,11 @@ class Spec(object):
             return [n, tgt, rng.choice(["dict", "odict", "pairs", "kw", "mixed"]), self.pairs(rng)]
         if n in ("setitem", "setdefault"):
             return [n, tgt, name, v]
+        if n == "popd" and name in GOOD and not (isinstance(v, int) and not isinstance(v, bool) and v % 3 == 0 and v):
+            # the default: usually a foreign object, else None / 0 / the very object the field holds (decided from the
+            # value drawn above, so that the other operations of the history stay what they were)
+            return [n, tgt, name, "@same" if isinstance(v, int) and not isinstance(v, bool) and v % 3 == 1 else (None if v is None or v % 3 == 2 else 0)] \
+                if not isinstance(v, (str, float, bool)) else [n, tgt, name, "@same"]
         if n in ("getitem", "delitem", "in", "has_key", "get", "fetch", "pop", "popd"):
             return [n, tgt, name]
         if n in ("popitem", "clear", "stampNow", "copy", "pull", "dpull", "spew", "dclear"):
